@@ -108,7 +108,7 @@ func c15Judge(r *verifkit.R, phase string, ci int, res *convResult, k int, plumb
 	}
 	r.Add("cases_"+res.Class, 1)
 	r.Eval(fmt.Sprintf("k=%d|%s|%s|%s", k, res.Class, res.Desc, res.TraceHash()), far > 0 && within > 0)
-	if vio == 0 && far > 0 && r.NeedSample() {
+	if far > 0 && r.NeedSample() {
 		var tables []string
 		for x := 0; x < s.N; x++ {
 			for _, l := range s.Learned(x) {
